@@ -79,6 +79,7 @@ CallVerdict(ci, k) ==
       obs  == [i \in 1..Len(oc.frames) |-> ReadMsg(c.proto, oc.frames[i].type, oc.frames[i].payload)]
       ok   == /\ oc.res \in {"ok", "ValueError"}
               /\ ExpectOK(exp, oc.res = "ValueError", obs)
+              /\ \A i \in 1..Len(oc.policies) : Eq(oc.policies[i], PolicyOf(exp.policy))   \* C02 policy part
               /\ \A i \in 1..Len(oc.frames) :          \* C04: 0x80 (0x90 extended) from 0xB0
                    oc.frames[i].from = 176 /\ oc.frames[i].to = (IF oc.frames[i].type = 31 THEN 144 ELSE 128)
   IN [ok |-> ok, k |-> k, exp |-> exp, obs |-> obs, a |-> a, z |-> z]
